@@ -38,7 +38,7 @@ CHECKS = {
    note="Trusted base: V0-V3, Table 2, degree table transcribed from the pinned commit. T in {1,3} here; other symbol sizes are lifted by C09."),
  "C05": dict(level="exploration", design="5/C05", technique="complete enumeration of a configuration box (F,T,Z,N,Al) against a reference layout map, plus Partition[I,J] grid",
    text="Every configuration of the box is encoded by the real Encoder and every payload byte of every source packet is compared with an RFC-written map (SBN,ESI,byte)->object offset/padding; a Decoder must invert it; partition() is compared on a complete grid.",
-   note="Box bounds: complete F range for T<=10 (Kt<=8, Z<=4) and T in {1,2,3,4,6} (Kt<=14, Z<=7); wide box T<=32 (64 thorough) with every Al|T and every N, Kt<=12 (16), Z<=7 (9), F at the five remainders that matter; larger shapes only encode-only at selected sizes."),
+   note="Box bounds: complete F range for T<=10 (Kt<=8, Z<=4) and T in {1,2,3,4,6} (Kt<=14, Z<=7); wide box T<=64 with every Al|T and every N, Kt<=12 (16), Z<=7 (9), F at the five remainders that matter; larger shapes only encode-only at selected sizes."),
  "C06": dict(level="exploration", design="5/C06", technique="complete product over all 477 K' x {K', min K} x {dense, sparse} x {direct, plan replay}, certificate check by the reference model; repeated in the debug-assertions build",
    text="For every block size the encoder is built in all four variants on the real code; all variants must succeed, agree, and satisfy every LDPC/HDPC/LT relation evaluated by the reference model. The thorough tier is the complete product (exhaustive over the finite set of block sizes).",
    note="Quick tier restricts the dense back-end to K'<=700 and the minimum-K partner to K'<=1100. Checked-profile runs stop at K'=1100 (cubic self-checks)."),
